@@ -100,6 +100,8 @@ theorem InvD.preserved_nodelay {cfg : Cfg} {s s' : State} {l : Label} (hB : InvB
   have hL3 : s.rt ≠ .waiting → (s.st (.root .startupCleanup)).ended = false → stoppingPhase s :=
     fun hn hl => stoppingPhase_of_live hC hn hl
   have hc11 := hC.scOver
+  have hkO : ∀ r : Root, r.kind = .observer → r ≠ .startupCleanup := by intro r; cases r <;> simp [Root.kind]
+  have hkS : ∀ r : Root, r.kind = .simple → r ≠ .startupCleanup := by intro r; cases r <;> simp [Root.kind]
   obtain ⟨h0, h1, h2, h3, h4, h5, h6, h7, h8, h9, h10, h11, h12, h13, h14⟩ := hI
   cases l <;> simp only [step] at h
   case delay n => exact absurd rfl (hl n)
@@ -115,7 +117,7 @@ theorem InvD.preserved_nodelay {cfg : Cfg} {s s' : State} {l : Label} (hB : InvB
     kind_startupCleanup_iff] at *)
   all_goals (try subst_vars)
   all_goals (try dsimp only)
-  all_goals (first | grind [upd, Root.kind, TS.active, TS.live, TS.ended, TS.isStopping, failTS, cancelSubs,
-    cancelRoots, Pend.ts, scBeforeCleanup, scLate, scEarly, stoppingPhase, G, grace] | (trace_state; sorry))
+  all_goals (grind [upd, Root.kind, TS.active, TS.live, TS.ended, TS.isStopping, failTS, cancelSubs,
+    cancelRoots, Pend.ts, scBeforeCleanup, scLate, scEarly, stoppingPhase, G, grace])
 
 end Kopf.C20
